@@ -70,8 +70,14 @@ def margin_of(bpt):
     return 3 * (1 + math.floor(bpt))
 
 
+_BPTF = {}
+
+
 def bptF(bpt):
-    return Fraction(str(bpt))
+    f = _BPTF.get(bpt)
+    if f is None:
+        f = _BPTF[bpt] = Fraction(str(bpt))
+    return f
 
 
 def texels(length, bpt, rounding):
@@ -244,10 +250,10 @@ def pieces_of(scaffold, bpt, rounding, cuts):
     return [[scaffold["name"], *texel_piece(a, b, bpt)] for a, b in itertools.pairwise(bounds)]
 
 
-def arrangements(k, rng=None, cap=None):
+def arrangements(k):
     """
     (order, orientations, group sizes) for k pieces: every permutation x orientation x split of the sequence into
-    consecutive Pretext scaffolds; a seeded sample of `cap` of them if there are more than `cap`
+    consecutive Pretext scaffolds
     """
     full = []
     for order in itertools.permutations(range(k)):
@@ -263,8 +269,6 @@ def arrangements(k, rng=None, cap=None):
                         size += 1
                 sizes.append(size)
                 full.append((order, orient, tuple(sizes)))
-    if cap is not None and len(full) > cap:
-        return rng.sample(full, cap)
     return full
 
 
@@ -302,8 +306,7 @@ def arrange(pieces, arrangement, painted=None, tags=None):
     return scaffolds
 
 
-def identity_arrangement(k):
-    return tuple(range(k)), (1,) * k, (1,) * k
+ALL_ARRANGEMENTS = {k: arrangements(k) for k in (1, 2, 3)}
 
 
 # --------------------------------------------------------------------------------------------------
@@ -572,55 +575,59 @@ def single_scaffold_geometries(tier, rng):
     return geoms
 
 
-def scripts_for(inp, bpt, rng, n_scripts, max_cuts=3, roundings=None, painted_p=0.5, arr_cap=None):
+def sample_cut_set(rows, bpt, n, rng, max_cuts, cache):
+    """one cut set for a scaffold of n texels: uniformly from ALL cut sets if n <= 14, else boundaries near row ends"""
+    if n < 4 or not max_cuts:
+        return ()
+    if n <= 14:
+        key = ("all", n, max_cuts)
+        if key not in cache:
+            cache[key] = cut_sets(n, max_cuts)
+        return rng.choice(cache[key])
+    key = ("marks", id(rows), bpt, n)
+    if key not in cache:
+        cache[key] = interesting_boundaries(rows, bpt, n)
+    marks = cache[key]
+    for _ in range(20):
+        c = rng.randint(1, max_cuts)
+        cs = set()
+        for _ in range(c):
+            cs.add(rng.choice(marks) if marks and rng.random() < 0.85 else rng.randint(2, n - 2))
+        cs = tuple(sorted(cs))
+        b = [0, *cs, n]
+        if all(y - x >= 2 for x, y in itertools.pairwise(b)):
+            return cs
+    return ()
+
+
+def scripts_for(inp, bpt, rng, n_scripts, max_cuts=3, roundings=None, painted_p=0.5, uncut_p=0.2):
     """
     `n_scripts` PretextView-model edit scripts (untagged apart from Painted) for the input `inp` at `bpt`:
-    per scaffold a rounding and a cut set (all cut sets if the scaffold has <= 14 texels, else boundaries near
-    row ends), then one arrangement of all pieces.  Sub-texel scaffolds are present (ceil) or absent.
+    per scaffold a rounding and a cut set (uniform over all cut sets if the scaffold has <= 14 texels, else cuts on
+    boundaries near row ends), then one arrangement of all pieces (uniform over all arrangements for <= 3 pieces).
+    Sub-texel scaffolds are present (ceil) or absent.  Yields (map, [(rounding, cuts | 'absent') per scaffold]).
     """
-    per_scaffold = []
-    for sc in inp:
-        ln = rows_len(sc["rows"])
-        opts = []
-        for rounding in roundings or ("floor", "ceil"):
-            n = texels(ln, bpt, rounding)
-            if n < 1:
-                opts.append((rounding, None))
-                continue
-            if Fraction(ln) < bptF(bpt):
-                opts.append((rounding, None))  # sub-texel scaffold left out of the map
-            if n <= 14:
-                css = cut_sets(n, max_cuts)
-            else:
-                marks = interesting_boundaries(sc["rows"], bpt, n)
-                css = [()]
-                for c in range(1, max_cuts + 1):
-                    for cs in itertools.combinations(marks, c):
-                        b = [0, *cs, n]
-                        if all(y - x >= 2 for x, y in itertools.pairwise(b)):
-                            css.append(cs)
-                    if len(css) > 4000:
-                        break
-            opts.append((rounding, css))
-        per_scaffold.append(opts)
+    cache = {}
     for _ in range(n_scripts):
         pieces = []
         rounds = []
-        for sc, opts in zip(inp, per_scaffold, strict=True):
-            rounding, css = rng.choice(opts)
-            if css is None:
+        for sc in inp:
+            ln = rows_len(sc["rows"])
+            rounding = rng.choice(roundings or ("floor", "ceil"))
+            n = texels(ln, bpt, rounding)
+            if n < 1 or (Fraction(ln) < bptF(bpt) and rng.random() < 0.5):
                 rounds.append((rounding, "absent"))
                 continue
             # prefer cut maps: an uncut scaffold one time in five
-            cs = () if rng.random() < 0.2 else rng.choice(css)
+            cs = () if rng.random() < uncut_p else sample_cut_set(sc["rows"], bpt, n, rng, max_cuts, cache)
             rounds.append((rounding, list(cs)))
             pieces.extend(pieces_of(sc, bpt, rounding, cs))
         if not pieces:
             yield {"bpt": bpt, "scaffolds": []}, rounds
             continue
         k = len(pieces)
-        if k <= 3 and rng.random() < 0.5:
-            arr = rng.choice(arrangements(k))
+        if k <= 3:
+            arr = rng.choice(ALL_ARRANGEMENTS[k])
         else:
             arr = random_arrangement(k, rng)
         painted = [rng.random() < painted_p for _ in arr[2]]
@@ -702,7 +709,36 @@ def model_cases(tier, rng, painted_p=0.5, budget=None):
 # --------------------------------------------------------------------------------------------------
 
 
-def tiny_exhaustive(lengths=(1, 2, 7), bpts=(1.0, 2.5), max_contigs=2, max_cuts=2, gaps=(None, (1, "contig"), (5, "scaffold"))):
+def tiny_scopes(tier, wide=False):
+    """
+    the fully enumerated scopes of a tier as keyword sets for tiny_exhaustive().  `wide` (C02) uses contigs long
+    enough to have an interior beyond the 3 x (1 + floor(bpt)) margin.
+    """
+    if wide:
+        if tier == "quick":
+            return [dict(lengths=(24,), bpts=(2.5,), max_contigs=2, max_cuts=1, gaps=(None, (5, "scaffold")), painted_options=(False,))]
+        return [
+            dict(lengths=(1, 7, 24), bpts=(2.5,), max_contigs=2, max_cuts=1, gaps=(None, (5, "scaffold"))),
+            dict(lengths=(24,), bpts=(2.5,), max_contigs=2, max_cuts=2, gaps=(None, (5, "scaffold")), painted_options=(True,)),
+            dict(lengths=(2, 16), bpts=(1.0,), max_contigs=2, max_cuts=1, gaps=(None, (5, "scaffold"))),
+        ]
+    if tier == "quick":
+        return [dict(lengths=(1, 2, 7), bpts=(2.5,), max_contigs=2, max_cuts=1)]
+    return [
+        dict(lengths=(1, 2, 7), bpts=(2.5,), max_contigs=3, max_cuts=1),
+        dict(lengths=(1, 2, 7), bpts=(2.5,), max_contigs=2, max_cuts=2),
+        dict(lengths=(1, 2, 7), bpts=(1.0,), max_contigs=2, max_cuts=1),
+    ]
+
+
+def describe_scopes(scopes):
+    return "; ".join(
+        f"lengths {list(k['lengths'])}, <= {k['max_contigs']} contigs, texel sizes {list(k['bpts'])}, <= {k['max_cuts']} cuts"
+        for k in scopes
+    )
+
+
+def tiny_exhaustive(lengths=(1, 2, 7), bpts=(1.0, 2.5), max_contigs=2, max_cuts=2, gaps=(None, (1, "contig"), (5, "scaffold")), painted_options=(False, True)):
     """
     EVERY case of a tiny scope: one scaffold of <= max_contigs contigs with lengths from `lengths`, both strands per
     contig, one gap choice, own names; every texel size in `bpts`, floor and ceil, every cut set of <= max_cuts
@@ -724,7 +760,7 @@ def tiny_exhaustive(lengths=(1, 2, 7), bpts=(1.0, 2.5), max_contigs=2, max_cuts=
                             for cs in cut_sets(n, max_cuts):
                                 pcs = pieces_of(sc, bpt, rounding, cs)
                                 for arr in arrangements(len(pcs)):
-                                    for painted in (False, True):
+                                    for painted in painted_options:
                                         mp = {"bpt": bpt, "scaffolds": arrange(pcs, arr, [painted] * len(arr[2]))}
                                         yield {"input": [sc], "map": mp, "prefix": "SUPER_", "via": "objects"}
 
@@ -842,3 +878,62 @@ def case_key(case):
 
 def n_cut_pieces(case):
     return sum(len(sc) for sc in case["map"]["scaffolds"])
+
+
+# --------------------------------------------------------------------------------------------------
+# tagged maps (C09, C10): reading the tags of a map as the documentation describes them
+# --------------------------------------------------------------------------------------------------
+
+KNOWN_TAGS = {"Painted", "Target", "Primary", "Contaminant", "Cut", "FalseDuplicate", "Haplotig", "Singleton", "Unloc"}
+NAME_DERIVED_HAPLOTYPE = re.compile(r"^([^_]+)_.+_\d+$")  # only used to recognise the KNOWN C09 class, never by an oracle
+
+
+def read_scaffold_tags(psc):
+    """what the tags on the pieces of one Pretext scaffold say about the scaffold as a whole"""
+    tags = [t for p in psc for t in p[4]]
+    info = {"painted": "Painted" in tags, "target": "Target" in tags, "singleton": "Singleton" in tags, "name_tag": None, "hap": None}
+    for t in tags:
+        if t in KNOWN_TAGS:
+            continue
+        if re.fullmatch(r"[A-Z]\d*", t):
+            info["name_tag"] = t
+        else:
+            info["hap"] = t
+    return info
+
+
+def piece_special(piece):
+    for t in SPECIAL_TAGS:
+        if t in piece[4]:
+            return t
+    return None
+
+
+def plan_to_map(plan, bpt, rng):
+    """
+    plan: [{"painted": bool, "hap": str|None, "name_tag": str|None, "target": bool, "singleton": bool,
+            "pieces": [([src, start, end], strand, [piece tags])]}]
+    Painted is written on every piece of a painted scaffold (as PretextView does); a haplotype / name / Target tag on
+    every piece, only the first, or only the last piece (seeded); Singleton on the first piece.
+    """
+    scs = []
+    for sc in plan:
+        k = len(sc["pieces"])
+        rows = []
+        placement = {}
+        for what in ("hap", "name_tag", "target"):
+            placement[what] = rng.choice(("all", "first", "last"))
+        for i, (pc, strand, ptags) in enumerate(sc["pieces"]):
+            t = ["Painted"] if sc.get("painted") else []
+            for what, tag in (("hap", sc.get("hap")), ("name_tag", sc.get("name_tag")), ("target", "Target" if sc.get("target") else None)):
+                if not tag:
+                    continue
+                pl = placement[what]
+                if pl == "all" or (pl == "first" and i == 0) or (pl == "last" and i == k - 1):
+                    t.append(tag)
+            if sc.get("singleton") and i == 0:
+                t.append("Singleton")
+            t.extend(ptags)
+            rows.append([pc[0], pc[1], pc[2], strand, t])
+        scs.append(rows)
+    return {"bpt": bpt, "scaffolds": scs}
